@@ -219,3 +219,29 @@ def check(facts, rep, tier, cfg):
                     rep.bad("C10.R3", "decode-error-propagates", where3, "the frame decode result is not propagated with `?` (invalid frames could be ignored or crash)")
     if not found:
         rep.bad("C10.R3", "decode-site", "", "no frame decode call found in the connection task (anchor missing)")
+    # ---- R5 the connection task never deadlocks on its own lock
+    rep.rule("C10.R5", "S5 no lock re-entrancy: while a guard of a Task/Multiplexor lock is live, no call, closure or nested acquisition "
+                       "reachable in that region acquires the same (non-re-entrant) lock again")
+    from shared import s5_lock_reentrancy
+    viol, nsites = s5_lock_reentrancy(facts, crate)
+    seen5 = set()
+    for b, abb, fld, desc, x in viol:
+        key = "%s/%s" % (b.path, fld)
+        if key in seen5:
+            continue
+        seen5.add(key)
+        rep.bad("C10.R5", "reentrant-lock/%s" % key, "%s (%s)" % (loc_str(b.term(x)["loc"]), b.path),
+                "`%s` is locked at %s and, while that guard is still live, %s acquires `%s` again: parking_lot locks are not "
+                "re-entrant, so the connection task deadlocks on itself and stops serving every stream" % (
+                    fld, loc_str(b.term(abb)["loc"]), desc, fld))
+    if not viol:
+        rep.ok("C10.R5", "no-reentrant-lock", "", "%d guard regions examined" % nsites)
+    rep.floor("C10.R5", "lock acquisitions with a tracked guard", nsites, 10)
+    from shared import s6_guard_across_await
+    held = s6_guard_across_await(facts, crate)
+    for b, abb, fld, y in held:
+        rep.bad("C10.R5", "guard-across-await/%s/%s" % (b.path, fld), "%s (%s)" % (loc_str(b.term(abb)["loc"]), b.path),
+                "the blocking guard of `%s` taken here is still live at the await at %s: every other task (and the stream handles) "
+                "that needs `%s` blocks its thread until this future is resumed" % (fld, loc_str(b.term(y)["loc"]), fld))
+    if not held:
+        rep.ok("C10.R5", "no-guard-across-await", "", "no blocking guard is live at a suspension point")
